@@ -6,6 +6,7 @@ import RbV.Model.OrfScan
 import RbV.Lemmas.OrfScan
 import RbV.Lemmas.OrfScanP
 import RbV.Thm.GenSrcOrf
+import RbV.Thm.GenSrcOrfNew
 import RbV.Thm.GenSrcGc
 import RbV.Thm.GenSrcAlphabet
 /-!
@@ -310,6 +311,33 @@ theorem orf_next_source_accepted (seq : List Nat) (starts stops : List (List Nat
   obtain ⟨h1, h2⟩ := orf_length_test_source_in_slack minLen seq.length hlen
   exact ⟨_, fun fuel hf => orf_next_source_eq_model _ _ seq starts stops minLen h1 h3s (by omega) fuel hf,
     orf_model_any_test_accepted seq starts stops minLen _ h2 h3s h3p hd⟩
+
+/-- **From the translated constructors** (genleft): `Finder::new(starts, stops, min_len)` as written, `.find_all(seq)` as
+written (with `State::new()` as written), then the translated `next` with the length test of the source until `None`
+(`GenSrcOrfNew.findAllSrc`) never panics and yields a list the oracle accepts.  The initial iterator state is no longer
+read off the constructors by hand. -/
+theorem orf_find_all_source_accepted (seq : List Nat) (starts stops : List (List Nat)) (minLen : Nat)
+    (h3s : ∀ c ∈ starts, c.length = 3) (h3p : ∀ c ∈ stops, c.length = 3) (hd : ∀ c ∈ starts, c ∉ stops)
+    (hlen : seq.length + 2 < 2 ^ 64) :
+    ∃ out, (∀ fuel, out.length < fuel →
+        GenSrcOrfNew.findAllSrc Gen.SrcOrf.next_lenTest starts stops minLen fuel seq = Rs.Res.ok out) ∧
+      Orf.acceptOrf seq starts stops minLen out = true := by
+  obtain ⟨out, h1, h2⟩ := orf_next_source_accepted seq starts stops minLen h3s h3p hd hlen
+  exact ⟨out, fun fuel hf => by rw [GenSrcOrfNew.findAllSrc_eq]; exact h1 fuel hf, h2⟩
+
+/-- the translated constructors, as values: `Finder::new` keeps the codons and `min_len`; `find_all` starts with three
+empty start-position lists, an empty codon window, nothing found, and the sequence enumerated from 0 -/
+theorem orf_constructors_source_eq_model (seq : List Nat) (starts stops : List (List Nat)) (minLen : Nat) :
+    Gen.SrcOrfNew.findAll (Gen.SrcOrfNew.finderNew starts stops minLen) seq
+      = { finder := { start_codons := starts, stop_codons := stops, min_len := minLen },
+          state := { start_pos := [[], [], []], codon := [], found := [] },
+          seq := GenSrcOrf.enumFrom 0 seq } := by
+  rw [GenSrcOrfNew.findAll_eq, GenSrcOrfNew.finderNew_eq]
+
+-- non-vacuity: constructors and iterator evaluated end to end on ATG ATG AAA TAA G ATG TAG (minimum length outside the slack)
+example : GenSrcOrfNew.findAllSrc Gen.SrcOrf.next_lenTest [[65, 84, 71]] [[84, 65, 65], [84, 65, 71]] 3 9
+    [65, 84, 71, 65, 84, 71, 65, 65, 65, 84, 65, 65, 71, 65, 84, 71, 84, 65, 71]
+    = Rs.Res.ok [(0, 12, 0), (3, 12, 0), (13, 19, 1)] := by decide +kernel
 
 /-- with the length test of the pinned text (`index + 1 - start_pos > min_len`) the translated `next` yields exactly
 what the mirror model `findAll` — the one the driver runs next to the code on every case — yields -/
